@@ -208,7 +208,90 @@ def run_impl(s: SScn):
                 out.append({"op": i, "res": "skipped"})
             return out
         out.append({"op": "C", "res": "ok", **observe(sm, user, s, supplied)})
+
+        def perform(i, op):
+            if op[0] == "send":
+                sm.send(EVENTS[op[1]])
+            elif op[0] == "wv":
+                v = None if op[1] is None else VALS[op[1]]
+                unmapped = v is not None and not any(type(x) is type(v) and x == v for x in type(sm).states_map)
+                if unmapped and i % 2 == 0:
+                    from statemachine import State
+                    sm.current_state = State(value=v)
+                else:
+                    sm.current_state_value = v
+            elif op[0] == "ws":
+                sm.current_state = getattr(sm, f"s{op[1]}")
+            elif op[0] == "raw":
+                setattr(user, s.field_name, None if op[1] is None else VALS[op[1]])
+            elif op[0] == "del":
+                try:
+                    delattr(user, s.field_name)
+                except AttributeError:
+                    pass
+
+        # one macrostep: the operations that follow a `send` are performed from inside the `after` callback of the
+        # transition it runs (a listener attached for the purpose); a send among them is queued behind it
+        class Inside:
+            todo = None
+            ran = False
+            last_send = None
+
+            def after_transition(self_l):
+                if Inside.todo is None:
+                    return
+                todo, Inside.todo = Inside.todo, None
+                Inside.ran = True
+                i0, rest = todo
+                out.append({"op": i0, "res": "ok", **observe(sm, user, s, supplied)})
+                for j, opj in rest:
+                    if opj[0] == "send":
+                        Inside.last_send = j
+                        r = sm.send(EVENTS[opj[1]])     # run-to-completion: only queued
+                        if r is not None:
+                            out.append({"op": j, "res": f"err:nested send returned {r!r}"})
+                        continue
+                    try:
+                        perform(j, opj)
+                        res = "ok"
+                    except Exception as e:  # noqa: BLE001
+                        res = "err:" + exc_s(e, s)
+                    out.append({"op": j, "res": res, **observe(sm, user, s, supplied)})
+
+        bundles = {}
+        for b0, bk in getattr(s, "bundles", []):      # (kept legal whatever a shrinker did to the operation list)
+            if b0 < len(s.ops) and s.ops[b0][0] == "send" and not any(b0 <= x + kk and x <= b0 for x, kk in bundles.items()):
+                k = 0
+                while b0 + k + 1 < len(s.ops) and k < bk:
+                    k += 1
+                    if s.ops[b0 + k][0] == "send":
+                        break
+                if k:
+                    bundles[b0] = k
+        if bundles:
+            sm.add_listener(Inside())
+        skip = set()
         for i, op in enumerate(s.ops):
+            if i in skip:
+                continue
+            if i in bundles and op[0] == "send":
+                rest = [(j, s.ops[j]) for j in range(i + 1, i + 1 + bundles[i])]
+                Inside.todo, Inside.ran, Inside.last_send = (i, rest), False, None
+                try:
+                    sm.send(EVENTS[op[1]])
+                    res = "ok"
+                except Exception as e:  # noqa: BLE001
+                    res = "err:" + exc_s(e, s)
+                Inside.todo = None
+                if Inside.ran:
+                    skip |= {j for j, _ in rest}
+                    if Inside.last_send is not None:      # the outcome of the macrostep after the callback = the queued event's
+                        out.append({"op": Inside.last_send, "res": res, **observe(sm, user, s, supplied)})
+                    elif res != "ok":
+                        out.append({"op": i, "res": res + " (after the callback returned)"})
+                    continue
+                out.append({"op": i, "res": res, **observe(sm, user, s, supplied)})
+                continue
             try:
                 if op[0] == "send":
                     sm.send(EVENTS[op[1]])
